@@ -314,9 +314,9 @@ def handwritten_cases(draw):
 
 CLAUSES = [
     Clause('roundtrip', check_roundtrip, kind='random', strategy=roundtrip_cases,
-           budget={'quick': 6000, 'thorough': 40000}),
+           budget={'quick': 6000, 'thorough': 120000}),
     Clause('corelang-roundtrip', check_roundtrip, kind='random', strategy=corelang_roundtrip_cases,
-           budget={'quick': 320, 'thorough': 4000}),
+           budget={'quick': 320, 'thorough': 12000}),
     Clause('handwritten-files', check_handwritten, kind='random', strategy=handwritten_cases,
-           budget={'quick': 3000, 'thorough': 20000}),
+           budget={'quick': 3000, 'thorough': 60000}),
 ]
